@@ -10,7 +10,6 @@ impl_from_newtype_to_newtype!(crate::U7, U14);
 
 // From lower primitives to this newtype
 impl_from_primitive_to_newtype!(u8, U14);
-impl_from_primitive_to_newtype!(i8, U14);
 
 // From this newtype to higher primitives
 impl_from_newtype_to_primitive!(U14, u16);
@@ -26,6 +25,9 @@ impl_from_newtype_to_primitive!(U14, isize);
 
 // TryFrom higher newtypes to this newtype
 // -
+
+// TryFrom signed primitives whose non-negative range fits into this newtype
+impl_try_from_signed_primitive_to_newtype!(i8, U14);
 
 // TryFrom higher primitives to this newtype
 impl_try_from_primitive_to_newtype!(u16, U14);
